@@ -6,7 +6,7 @@
 From Coq Require Import List ZArith NArith Bool Arith Lia.
 From GoProbe.Base Require Import CorrLib.
 From GoProbe.C04 Require Import Model ProofsCols Proofs2 Proofs5.
-From GoProbe.C05 Require Import Model Proofs.
+From GoProbe.C05 Require Import Model Proofs Proofs2.
 Import ListNotations.
 
 (* every fatal fault at every operation index: the write-out reports an error and the reader's answer
@@ -38,6 +38,32 @@ Theorem c05_dropped_error_commits : forall s a w k o, Inv s a -> wf_w w ->
   reader (apply_all s (fst (fault_run (writeout_ops s w) k))) = Ok (spec_read_f (adb_put a w)).
 Proof. exact dropped_commits. Qed.
 Print Assumptions c05_dropped_error_commits.
+
+(* the side condition above holds for EVERY state and EVERY write-out (purely syntactic: a dropped-error operation
+   other than the deferred unlink is state-neutral itself, and the unlink is followed by the rmdir only), so the
+   dropped-error theorem is unconditional: *)
+Theorem c05_dropped_error_commits_full : forall s a w k o, Inv s a -> wf_w w ->
+  nth_error (writeout_ops s w) k = Some o -> classify o = FIgnored ->
+  snd (fault_run (writeout_ops s w) k) = true /\
+  reader (apply_all s (fst (fault_run (writeout_ops s w) k))) = Ok (spec_read_f (adb_put a w)).
+Proof. exact Proofs2.c05_dropped_error_commits_full. Qed.
+Print Assumptions c05_dropped_error_commits_full.
+
+(* healing after ANY sequence of faulted write-outs that mixes fatal faults (nothing committed) and dropped-error
+   faults (committed completely, success reported) - every fault class except the directory rename of the open
+   finding: the state satisfies the invariant for exactly the write-outs cs that hit a dropped error, in order,
+   the reader shows exactly those on top of the database before, and the next fault-free write-out is visible in
+   full. faulted_mix is defined in Proofs2.v (fm_nil / fm_fatal / fm_dropped). *)
+Theorem c05_heals_mixed : forall s s' a cs w, Inv s a -> wf_w w -> faulted_mix s cs s' ->
+  Inv s' (fold_left adb_put cs a) /\
+  reader s' = Ok (spec_read_f (fold_left adb_put cs a)) /\
+  reader (apply_all s' (writeout_ops s' w)) = Ok (spec_read_f (adb_put (fold_left adb_put cs a) w)).
+Proof. exact Proofs2.c05_heals_mixed. Qed.
+Print Assumptions c05_heals_mixed.
+
+(* non-vacuity: a dropped-error fault on the last operation of a write-out, then a fatal fault at operation 8 *)
+Example c05_heals_mixed_example : exists s', faulted_mix fs_empty [ex_w 0 1700000100%Z] s'.
+Proof. exact c05_mixed_example. Qed.
 
 Example c05_dropped_example :
   let s := hist_state fs_empty [ex_w 0 1700000100%Z] in
